@@ -175,7 +175,7 @@ def run_case(ctx, case, steps, variant, kind):
         if k >= len(steps):
             break
         exp = steps[k]
-        sig = {"op": op["name"], "calls": len(case["ops"]), "call": k + 1}
+        sig = {"op": op["name"], "calls": len(case["ops"]), "call": k + 1, "empty_input": len(cur) == 0}
         if op["name"] == "oob":
             sig["kind"] = op["kind"]
         if exp["amb"]:
